@@ -1,4 +1,4 @@
 SPECIFICATION Spec
-CONSTANTS N = 3 FailAt = 3 MaxConns = 2 CleanupOnFailedStart = FALSE
+CONSTANTS N = 3 FailAt = 3 MaxConns = 2 CleanupOnFailedStart = FALSE MaxErrs = 0 RetryTransient = FALSE
 INVARIANTS TypeOK AllTracked StopClosesAll FailedStartLeavesNothing
 CHECK_DEADLOCK FALSE
